@@ -72,7 +72,7 @@ func bufferOf(v Val) Val {
 	if v == nil || v.Type() == nil {
 		return nil
 	}
-	if typeStr(v.Type()) != "*bytes.Buffer" {
+	if ts := typeStr(v.Type()); ts != "*bytes.Buffer" && ts != "*strings.Builder" {
 		return nil
 	}
 	if _, ok := rootOf(v).(*AllocV); !ok {
@@ -87,7 +87,7 @@ func (en *Engine) untouched(st *State, v Val) bool {
 	if _, dirty := st.dirty[root.Key()]; dirty {
 		return false
 	}
-	for _, p := range []string{"bufcontent:", "b64d:", "b64e:"} {
+	for _, p := range []string{"bufcontent:", "b64d:", "b64e:", "b64sink:"} {
 		if _, has := st.heap[p+v.Key()]; has {
 			return false
 		}
@@ -198,6 +198,18 @@ func (en *Engine) canonical(st *State, fr *Frame, x *ssa.Call, name string, args
 				return name, args, true
 			}
 		}
+		if len(args) == 2 {
+			w := stripIface(args[1])
+			if c, ok := st.heap["b64w:"+w.Key()]; ok {
+				if tu, isT := c.val.(*TupleV); isT && len(tu.Vals) == 2 {
+					res := en.emitCanonical(st, fr, x, "(*github.com/beevik/etree.Document).WriteToBytes", args[:1], []types.Type{tBytes, errorType()})
+					st.heap["b64w:"+w.Key()] = cell{w, mkTuple([]Val{tu.Vals[0], tu.Vals[1], res[0]})}
+					st.nonce++
+					fr.env[x] = mkTuple([]Val{mkUnknown("WriteTo n", types.Typ[types.Int64], st.nonce), res[1]})
+					return name, args, true
+				}
+			}
+		}
 	case "(*github.com/beevik/etree.Document).ReadFrom":
 		if len(args) == 2 {
 			if b := en.bytesOfReader(st, args[1]); b != nil {
@@ -213,6 +225,57 @@ func (en *Engine) canonical(st *State, fr *Frame, x *ssa.Call, name string, args
 			en.emitCanonical(st, fr, x, "(*github.com/beevik/etree.Document).SetRoot", []Val{doc[0], args[0]}, nil)
 			fr.env[x] = doc[0]
 			return name, args, true
+		}
+	case "encoding/base64.NewEncoder":
+		// a streaming encoder over an untouched local buffer: Write(p) once, then Close(), leaves EncodeToString(p) in it
+		if len(args) == 2 {
+			if buf := bufferOf(args[1]); buf != nil && en.untouched(st, buf) {
+				res := en.emitCanonical(st, fr, x, name, args, []types.Type{x.Type()})
+				st.heap["b64sink:"+buf.Key()] = cell{rootOf(buf), res[0]}
+				st.heap["b64w:"+res[0].Key()] = cell{res[0], mkTuple([]Val{args[0], buf})}
+				fr.env[x] = res[0]
+				return name, args, true
+			}
+		}
+	case "(io.WriteCloser).Write", "(io.Writer).Write":
+		if len(args) == 2 {
+			w := stripIface(args[0])
+			if c, ok := st.heap["b64w:"+w.Key()]; ok {
+				if tu, isT := c.val.(*TupleV); isT && len(tu.Vals) == 2 {
+					// first write: remember the bytes; writes to an in-memory sink do not fail
+					st.heap["b64w:"+w.Key()] = cell{w, mkTuple([]Val{tu.Vals[0], tu.Vals[1], args[1]})}
+					fr.env[x] = mkTuple([]Val{mkLen(st, args[1], tInt), nilOf(errorType())})
+					return name, args, true
+				}
+				// anything else (a second write): no longer a one-shot encoding
+				delete(st.heap, "b64w:"+w.Key())
+			}
+		}
+	case "(io.WriteCloser).Close", "(io.Closer).Close":
+		if len(args) == 1 {
+			w := stripIface(args[0])
+			if c, ok := st.heap["b64w:"+w.Key()]; ok {
+				delete(st.heap, "b64w:"+w.Key())
+				if tu, isT := c.val.(*TupleV); isT && len(tu.Vals) == 3 {
+					buf := tu.Vals[1]
+					if sink, has := st.heap["b64sink:"+buf.Key()]; has && sink.val.Key() == w.Key() {
+						delete(st.heap, "b64sink:"+buf.Key())
+						if en.untouched(st, buf) {
+							res := en.emitCanonical(st, fr, x, "(*encoding/base64.Encoding).EncodeToString", []Val{tu.Vals[0], tu.Vals[2]}, []types.Type{tString})
+							st.heap["bufcontent:"+buf.Key()] = cell{rootOf(buf), mkConv(res[0], tBytes)}
+							fr.env[x] = nilOf(errorType())
+							return name, args, true
+						}
+					}
+				}
+			}
+		}
+	case "(*strings.Builder).String":
+		if len(args) == 1 {
+			if c, ok := st.heap["bufcontent:"+args[0].Key()]; ok {
+				fr.env[x] = mkConv(c.val, tString)
+				return name, args, true
+			}
 		}
 	case "(*bytes.Buffer).Bytes":
 		if len(args) == 1 {
